@@ -69,6 +69,17 @@ MUTANTS = {
     "stv-replay-final-elected": ("C09", "votekit/elections/election_types/ranking/stv.py",
                                  "[c for s in self.get_elected(prev_state.round_number) for c in s]", "[c for s in self.get_elected() for c in s]",
                                  "re-introduce the fixed defect: replay uses the final elected set"),
+    "elim-tie-hash-order": ("C08", "votekit/elections/election_types/ranking/stv.py",
+                            "            if len(lowest_fpv_cands) > 1:\n", "            if len(lowest_fpv_cands) > 1 and self.tiebreak == \"__never__\":\n",
+                            "elimination ties resolved by set iteration order (hash-seed dependent), unrecorded"),
+    "residual-tie-by-name": ("C08", "votekit/utils.py",
+                             "        new_ranking, _ = tiebroken_ranking(\n            new_ranking, profile=profile, tiebreak=\"random\"\n        )",
+                             "        new_ranking = tuple(frozenset({c}) for s in new_ranking for c in sorted(s))",
+                             "residual ties of a scored tiebreak resolved alphabetically (not neutral)"),
+    "residual-tie-by-listing": ("C08", "votekit/utils.py",
+                                "        new_ranking, _ = tiebroken_ranking(\n            new_ranking, profile=profile, tiebreak=\"random\"\n        )",
+                                "        new_ranking = tuple(frozenset({c}) for s in new_ranking for c in sorted(s, key=lambda x: profile.candidates.index(x) if profile else 0))",
+                                "residual ties resolved by position in the candidate tuple"),
 }
 
 
